@@ -43,7 +43,18 @@ func (rn *runner) numDigitsCase(b *big.Int, tag string) {
 	rn.rawCase("numdigits", in, true, tag, func() string {
 		var z apd.BigInt
 		z.SetMathBigInt(b)
-		return strconv.FormatInt(apd.NumDigits(&z), 10)
+		dv := apd.NumDigits(&z)
+		// the same value with a heap-backed representation (a wide value shrunk in place): the digit count is a
+		// function of the value, not of where it is stored; a differing count is reported in place of the direct one
+		var h, w apd.BigInt
+		wide := new(big.Int).Mul(b, pow10(50))
+		h.SetMathBigInt(wide)
+		w.SetMathBigInt(pow10(50))
+		h.Quo(&h, &w)
+		if hv := apd.NumDigits(&h); hv != dv {
+			return strconv.FormatInt(hv, 10)
+		}
+		return strconv.FormatInt(dv, 10)
 	})
 }
 
